@@ -31,7 +31,7 @@ def arms(t, facts=()):
             if g is not None:
                 break
     if g is None:
-        if any(x == ir.RAISES for x in ir.subterms(t)):
+        if any(x == ir.RAISES for x in ir.subterms(t)) or any(x == ir.RAISES for f in facts for x in ir.subterms(f)):
             return []               # this resolution of the branches raises: no value
         fs = set(facts)
         if any(ir.negate(f) in fs for f in facts):
